@@ -10,6 +10,7 @@ import (
 	"os"
 	"os/exec"
 	"path/filepath"
+	"sort"
 	"strings"
 	"time"
 )
@@ -170,6 +171,7 @@ func sxFloat(n *sx) (float64, bool) {
 // Model extraction
 
 type replayArg struct {
+	Fields []replayArg `json:"fields,omitempty"`
 	Name  string   `json:"name"`
 	Type  string   `json:"type"`
 	Bytes []int    `json:"bytes,omitempty"`
@@ -219,8 +221,39 @@ func reifyParams(res *FuncResult, o *Obligation) ([]replayArg, string) {
 		kind string
 	}
 	var ps []pinfo
+	type leaf struct {
+		name string
+		tv   TV
+	}
+	var leaves []leaf
+	var flatten func(name string, tv TV) bool
+	flatten = func(name string, tv TV) bool {
+		if st, ok := tv.Ty.Underlying().(*types.Struct); ok {
+			dt := datatypes[tv.T.Sort]
+			if dt == nil {
+				return false
+			}
+			for i := 0; i < st.NumFields(); i++ {
+				if !flatten(name+"."+st.Field(i).Name(), TV{Sel(dt.fields[i], tv.T), st.Field(i).Type()}) {
+					return false
+				}
+			}
+			return true
+		}
+		leaves = append(leaves, leaf{name, tv})
+		return true
+	}
 	for _, p := range res.Params {
-		tv := p.V
+		if !flatten(p.Name, p.V) {
+			return nil, "parameter " + p.Name + " is not reifiable"
+		}
+	}
+	for _, p := range leaves {
+		tv := p.tv
+		p := struct {
+			Name string
+			V    TV
+		}{p.name, p.tv}
 		switch u := tv.Ty.Underlying().(type) {
 		case *types.Slice:
 			if b, ok := u.Elem().Underlying().(*types.Basic); ok && b.Kind() == types.Uint8 {
@@ -306,9 +339,54 @@ func reifyParams(res *FuncResult, o *Obligation) ([]replayArg, string) {
 		}
 		vals = evals
 	}
+	// strings compared with < are modelled through an order-embedding rank, not
+	// through their bytes: rebuild strings whose bytewise order matches the ranks
+	rankStr := map[string]string{}
+	if strings.Contains(script, "(srank ") {
+		var rexprs []string
+		for _, p := range ps {
+			if p.kind == "string" {
+				rexprs = append(rexprs, fmt.Sprintf("(srank %s)", p.tv.T))
+			}
+		}
+		if rv, ok := getValues(bounded, rexprs, 10); ok {
+			var ranks []*big.Int
+			seen := map[string]bool{}
+			for _, e := range rexprs {
+				if n, ok := sxInt(rv[e]); ok && !seen[n.String()] {
+					seen[n.String()] = true
+					ranks = append(ranks, n)
+				}
+			}
+			sort.Slice(ranks, func(i, j int) bool { return ranks[i].Cmp(ranks[j]) < 0 })
+			next := byte('b')
+			for _, n := range ranks {
+				if n.Sign() == 0 {
+					rankStr[n.String()] = ""
+					continue
+				}
+				rankStr[n.String()] = string([]byte{next})
+				next += 2
+			}
+			for _, p := range ps {
+				if p.kind == "string" {
+					if n, ok := sxInt(rv[fmt.Sprintf("(srank %s)", p.tv.T)]); ok {
+						rankStr["@"+p.name] = rankStr[n.String()]
+						rankStr["?"+p.name] = "y"
+					}
+				}
+			}
+		}
+	}
 	var out []replayArg
 	for _, p := range ps {
 		a := replayArg{Name: p.name, Type: p.tv.Ty.String()}
+		if p.kind == "string" && rankStr["?"+p.name] == "y" {
+			s := rankStr["@"+p.name]
+			a.Str = &s
+			out = append(out, a)
+			continue
+		}
 		switch p.kind {
 		case "bytes":
 			n := lens[p.name]
